@@ -149,6 +149,8 @@ class Sut(object):
 def norm_deps(deps):
   if deps is None:
     return None
+  if isinstance(deps, int) and not isinstance(deps, bool):     # bit mask over A, B, F, C
+    return [l for i, l in enumerate(LOGICAL) if (abs(deps) >> i) & 1]
   if not isinstance(deps, list):
     return []
   out = []
@@ -536,8 +538,8 @@ def run_case(case):
     bad = judge(sut, out, ua, info, cfg, cform, before, after, events, stats)
     if stats['nt']:
       nt_bundles += 1
-    if bad:
-      break
+    if bad and len(out['failures']) >= 3:
+      break     # later bundles are judged independently (state is re-read), but cap the noise
   out['concrete'] = {'setup': sut.setup_uas, 'actions': concrete}
   out['key'] = eqv.digest(out['concrete'])
   out['nontrivial'] = nt_bundles > 0
@@ -572,12 +574,12 @@ def strategy(tier):
     st.tuples(st.just('fform'), st.fixed_dictionaries({'f': st.integers(0, 2)})),
     st.tuples(st.just('cform'), st.fixed_dictionaries({'f': st.integers(0, 2)})),
     st.tuples(st.just('cfg'), st.fixed_dictionaries({'what': st.integers(0, 2), 'when': st.integers(0, 2),
-                                                     'deps': st.lists(st.integers(0, 3), max_size=4, unique=True)})),
+                                                     'deps': st.integers(0, 15)})),
   ).map(list)
   return st.fixed_dictionaries({
     'setup': st.fixed_dictionaries({
       'when': st.sampled_from([0, 0, 0, 1, 2, 2]),
-      'deps': st.one_of(st.none(), st.lists(st.integers(0, 3), max_size=4, unique=True)),
+      'deps': st.one_of(st.none(), st.integers(0, 15), st.integers(1, 15), st.sampled_from([1, 2, 4, 5, 8, 9])),
       'cform': st.integers(0, 2), 'fform': st.integers(0, 2)}),
-    'rows': st.lists(st.integers(0, 3), min_size=0, max_size=4),
+    'rows': st.lists(st.integers(0, 3), min_size=1, max_size=4),
     'steps': st.lists(step, min_size=1, max_size=max_steps)})
